@@ -35,6 +35,9 @@ built = {
  'C15': dict(cat='model_checking', ref='DESIGN.md §4 C15', tech='explicit-state reachability over abstract VM states (pc, stack depths, context-state kinds, bounded GOSUB stack) of every generated instruction list, with error edges, plus instruction-level conformance of real VM runs against the abstract graph',
    text='For every accepted program of the enumerated groups the instruction list is checked statically (targets resolved and inside the list, labels defined once, branches inside their procedure, Halt/PopRet at the ends, ascending statement addresses) and by breadth-first reachability over abstract states per procedure (no underflow, unique depth vector at every pc, balance at exits; with error edges into handlers for programs using ON ERROR); programs without handlers are also executed on the real VM and every executed instruction must occur in one of its abstract states.',
    note='Stack effects of the 70 instructions are transcribed from the VM handlers (DESIGN.md A.1); calls are summarised as balanced and each procedure analysed on its own; error edges are not drawn from block-statement headers (R6).'),
+ 'C16': dict(cat='model_checking', ref='DESIGN.md §4 C16', tech='explicit-state search over a column model of the devices (breadth-first over column residues, every transition replayed on the implementation) plus the full tree of PRINT / PRINT USING statement histories up to a depth and bounded-exhaustive enumeration of item lists and format strings; exact device bytes compared with the model',
+   text='Every PRINT list of <= 3 (thorough 4) tokens over a value menu (numbers of every type and sign, strings incl. empty, 13/14/15 characters, embedded CR / LF / CR LF) and both separators on screen, LPT1 and a file from start columns 0, 2, 13, 14, 15, 27; the full tree of histories of depth <= 2 (thorough 3) over 32 statement forms x 3 devices; BFS over the model states (column residues of the devices) with every (state, event) transition replayed after the shortest history reaching it; every PRINT USING format string up to length 3 (thorough 5) over {# . , backslash blank ! x} x value lists x trailing semicolon, and histories of PRINT USING statements; PRINT lists whose items call a FUNCTION that itself prints to every device. Oracle: exact bytes of stdout, LPT1 and two files.',
+   note='Line width (80 columns) is not modelled; PRINT USING ties, overflowing values, ! with an empty string and malformed fields are not judged; embedded CR and LF are each written as CR LF (the convention of the code comment in write_printer.rs).'),
  'C17': dict(cat='exploration', ref='DESIGN.md §4 C17', tech=T_ENUM,
    text='All strings up to length 4/5 over {a,B,blank} x all counts and positions in -1..7 for LEFT$, RIGHT$, MID$, INSTR (haystacks and needles over {a,B} up to length 4-6 / 3), the case and trim functions, SPACE$, STRING$, LEN(a+b), VAL(STR$(k)) for the INTEGER range; literal, variable and nested argument forms; definitional results from the reference semantics and the stated equations evaluated by the implementation itself.',
    note='7-bit ASCII (R8); INSTR with an empty needle not judged.'),
